@@ -56,6 +56,7 @@ def gen_cases(rng, tier):
                 if tier == 'quick' and rng.random() < 0.4: continue
                 yield {'op': 'window', 'src': src, 'offset': off, 'length': ln, 'via': rng.choice(['filename', 'handle']), 'cls': rng.choice(CLASSES)}
     yield from gen_sources(rng, tier)
+    yield from gen_arrfile(rng, tier)
     yield {'op': 'chunkconst'}
     # tofile itself, run with its chunk constant replaced by a small one (the code object is re-instantiated with the constant swapped):
     # lengths below, at, and above exact multiples of the chunk size
@@ -166,6 +167,223 @@ def gen_sources(rng, tier):
         if kind == 'handle': w['mode'] = rng.choice(['rb', 'r+b', 'raw'])              # BufferedReader / BufferedRandom / FileIO
         if kind != 'filename': w['pre'] = rng.choice([None, None, 'read1', 'end', 'used'])    # an object that was read from / positioned / given to a constructor before: its whole content counts
         yield finish({'op': 'srcser', 'src': raw, 'wrap': w, 'offset': off, 'length': ln, 'how': 'kw' if kind == 'filename' else 'pos'})
+
+# ---------------------------------------------------------------------------------------------------------------------------------------
+# "arrfile": an Array filled from an OPEN FILE OBJECT - Array(dtype, f), Array(dtype, f, trailing_bits=..), a.fromfile(f), a.fromfile(f, n) -
+# holds the whole items of the FILE (the first n for fromfile(f, n)), whatever the handle is (BufferedReader / BufferedRandom / FileIO, opened for
+# reading, updating or appending, with any buffer size, the raw handle under a buffered one, a subclass, a handle opened from a pathlib.Path;
+# a BytesIO for fromfile) and whatever has been done with it before (read from, positioned, read to its end, given to Bits / another Array /
+# fromfile, written to and flushed). The same handle gives the same answer a second time, agrees with Bits(f) of the same handle and with a handle
+# opened afresh; tobytes / tofile of that Array are the file's bytes (whole items), also after the handle is closed and the file removed.
+# Reference: the list of byte values in the case (+ the bytes the history appends) as a str of '0' and '1', cut with str slices; items by int(.., 2).
+AF_DTYPES = {'uint8': ('u', 'be', 8), 'u8': ('u', 'be', 8), 'int8': ('i', 'be', 8), '>H': ('u', 'be', 16), '<H': ('u', 'le', 16), 'uintbe16': ('u', 'be', 16), 'uintle32': ('u', 'le', 32),
+             'int16': ('i', 'be', 16), 'intle16': ('i', 'le', 16), 'uint12': ('u', 'be', 12), 'uint5': ('u', 'be', 5), 'int7': ('i', 'be', 7), 'uint24': ('u', 'be', 24), 'uint32': ('u', 'be', 32),
+             'uint64': ('u', 'be', 64), '>q': ('i', 'be', 64), '<i': ('i', 'le', 32), 'uint1': ('u', 'be', 1), 'uint3': ('u', 'be', 3), 'uint40': ('u', 'be', 40),
+             'float32': (None, None, 32), 'floatle64': (None, None, 64), 'bfloat': (None, None, 16), 'hex8': (None, None, 8), 'bytes3': (None, None, 24), 'bin4': (None, None, 4),
+             'bool': (None, None, 1), 'e4m3mxfp': (None, None, 8), 'oct9': (None, None, 9)}
+AF_MODES = ['rb', 'r+b', 'raw', 'raw+', 'a+b', 'a+raw', 'rb16', 'rb.raw', 'sub', 'path']      # see af_open
+AF_WRITABLE = ('r+b', 'raw+', 'a+b', 'a+raw')
+
+def gen_arrfile(rng, tier):
+    import mmap as _mmap
+    quick = tier == 'quick'
+    G = _mmap.ALLOCATIONGRANULARITY
+    def pre_op(size, holder, mode):
+        k = rng.choice([0, 1, 2, 3, 4, 7, 8, size // 2, max(0, size - 1), size, size + 3])
+        ops = [['read', k], ['read', k], ['seek', k], ['seek', k], ['end'], ['readall'], ['readline'], ['readinto', k], ['tell'], ['seek0'],
+               ['Bits', rng.choice(CLASSES)], ['BitsWin', rng.choice(CLASSES), rng.choice([0, 3, 8, 11]), rng.choice([None, 1, 8, 13])],
+               ['fromfile', rng.choice(list(AF_DTYPES)), rng.choice([None, None, 0, 1, 2])]]
+        if holder == 'file': ops += [['peek'], ['Array', rng.choice(list(AF_DTYPES))], ['Array', rng.choice(list(AF_DTYPES))], ['read1', k]]
+        if holder == 'bytesio' or mode in AF_WRITABLE: ops += [['append', [rng.randrange(256) for _ in range(rng.choice([1, 2, 3, 8]))]]]
+        return rng.choice(ops)
+    def one(size=None, dtype=None, mode=None, pre=None, route=None, holder=None):
+        if size is None: size = rng.choice([1, 2, 3, 4, 5, 7, 8, 9, 15, 16, 17, 24, 33, 45, 64, 100, rng.randrange(1, 300)])
+        d = dtype or rng.choice(list(AF_DTYPES))
+        holder = holder or ('bytesio' if rng.random() < 0.12 else 'file')
+        mode = mode or rng.choice(AF_MODES)
+        if pre is None: pre = [pre_op(size, holder, mode) for _ in range(rng.choice([0, 1, 1, 1, 2, 2, 3]))]
+        route = route or rng.choice(['init', 'init', 'init', 'init_trail', 'fromfile', 'fromfile', 'fromfile_n', 'fromfile_n', 'fromfile_trailing'])
+        if holder == 'bytesio' and route.startswith('init'): route = 'fromfile'          # (a BytesIO is documented as an initialiser of bitstrings only)
+        w = AF_DTYPES[d][2]; items = 8 * size // w
+        c = {'op': 'arrfile', 'src': [rng.randrange(256) for _ in range(size)] if size < 2000 else list(__import__('random').Random(size).randbytes(size)), 'dtype': d, 'holder': holder, 'mode': mode, 'pre': pre, 'route': route,
+             'n': rng.choice([0, 1, 2, items // 2, max(0, items - 1), items, items, items + 1, items + 5, rng.randrange(0, items + 2)]) if route == 'fromfile_n' else None,
+             'prefix': rand_bits(rng, w * rng.choice([0, 0, 1, 2, 3])) if route.startswith('fromfile') else '',
+             'trail': rand_bits(rng, rng.randrange(1, w)) if route in ('init_trail', 'fromfile_trailing') and w > 1 else '', 'lsb0': False}
+        if route in ('init_trail', 'fromfile_trailing') and w == 1: c['route'] = 'init' if route == 'init_trail' else 'fromfile'
+        # under lsb0 only where the bit numbering cannot matter: an empty Array, whole items, no trailing bits
+        if c['route'] in ('init', 'fromfile') and not c['prefix'] and (8 * size) % w == 0 and not any(p[0] == 'append' for p in pre) and rng.random() < 0.2: c['lsb0'] = True
+        return c
+    # a grid, so that no run misses a stratum: every kind of handle x every kind of history x the constructor / fromfile
+    grid_pre = [[], [['read', 4]], [['seek', 10]], [['end']], [['readall']], [['Array', 'uint8']], [['Bits', 'Bits']], [['fromfile', 'uint8', None]], [['fromfile', '>H', 2]], [['read', 1], ['seek0']],
+                [['readline']], [['peek']], [['readinto', 5]], [['BitsWin', 'BitStream', 8, 16]], [['Array', '>H'], ['Array', 'uint12']]]
+    for mode in AF_MODES:
+        for pre in grid_pre:
+            for route in ('init', 'fromfile', 'fromfile_n'):
+                if quick and rng.random() < (0.45 if route == 'init' else 0.8): continue
+                yield one(mode=mode, pre=pre, route=route, holder='file', dtype=rng.choice(['uint8', '>H', 'uint12', '<H', 'int16', 'uint24', 'float32', 'hex8']))
+    for mode in AF_WRITABLE:
+        for route in ('init', 'fromfile', 'fromfile_n'):
+            yield one(mode=mode, pre=[['append', [rng.randrange(256) for _ in range(rng.choice([1, 2, 3]))]]] + ([['seek', 1]] if rng.random() < 0.5 else []), route=route, holder='file')
+    for pre in grid_pre + [[['append', [1, 2, 3]]]]:
+        if any(p[0] in ('Array', 'peek') for p in pre): continue
+        for route in ('fromfile', 'fromfile_n'):
+            if quick and rng.random() < 0.5: continue
+            yield one(pre=pre, route=route, holder='bytesio')
+    for _ in range(120 if quick else 4000): yield one()
+    # files of (about) a whole number of pages, and long ones
+    for size in ([G, G + 1] if quick else [G - 1, G, G + 1, 2 * G, 3 * G + 5, 70000, 300001]):
+        for _ in range(1 if quick else 4):
+            yield one(size=size, dtype=rng.choice(['uint8', '>H', 'uint12', 'uint64', 'uint24']), holder='file', pre=[rng.choice([['read', 4], ['seek', G], ['end'], ['readall'], ['Array', 'uint8'], ['read', G]])], route=rng.choice(['init', 'init', 'fromfile', 'fromfile_n']))
+
+def af_open(path, mode):
+    """the handle of the given kind + the objects to close afterwards"""
+    if mode in ('rb', 'r+b', 'a+b'): f = open(path, mode); return f, [f]
+    if mode == 'raw': f = open(path, 'rb', buffering=0); return f, [f]
+    if mode == 'raw+': f = open(path, 'r+b', buffering=0); return f, [f]
+    if mode == 'a+raw': f = open(path, 'a+b', buffering=0); return f, [f]
+    if mode == 'rb16': f = open(path, 'rb', buffering=16); return f, [f]
+    if mode == 'rb.raw':
+        b = open(path, 'rb'); b.read(1); return b.raw, [b]          # the FileIO under a buffered reader that has filled its buffer: its position is far ahead
+    if mode == 'sub':
+        class Reader(io.BufferedReader): pass
+        f = Reader(io.FileIO(path, 'r')); return f, [f]
+    if mode == 'path':
+        import pathlib
+        f = open(pathlib.Path(path), 'rb'); return f, [f]
+    raise AssertionError(mode)
+
+def af_content(c):
+    """the bytes the file holds when the Array is made: the case's bytes + what the history appended"""
+    src = list(c['src'])
+    for p in c['pre']:
+        if p[0] == 'append': src += p[1]
+    return src
+
+def af_expected(c):
+    """(outcome, data bits of the Array afterwards) from the case alone"""
+    w = AF_DTYPES[c['dtype']][2]
+    bits = ''.join(format(x, '08b') for x in af_content(c)); avail = len(bits) // w
+    if c['route'] in ('init', 'init_trail'): return 'ok', bits[:avail * w] + c['trail']
+    if c['route'] == 'fromfile_trailing': return 'ValueError', c['prefix'] + c['trail']          # an Array with trailing bits cannot be extended (documented design): refused, unchanged
+    if c['route'] == 'fromfile': return 'ok', c['prefix'] + bits[:avail * w]
+    n = c['n']
+    return ('ok' if n <= avail else 'Other:EOFError'), c['prefix'] + bits[:min(n, avail) * w]     # like array.array.fromfile: the items that are there are appended, then EOFError
+
+def af_items(c, data):
+    """the items of `data` for the integer dtypes (None for the others: the data decides)"""
+    k, order, w = AF_DTYPES[c['dtype']]
+    if k is None: return None
+    out = []
+    for i in range(0, len(data) - w + 1, w):
+        slot = data[i:i + w]
+        if order == 'le': slot = ''.join(slot[j:j + 8] for j in range(w - 8, -1, -8))
+        v = int(slot, 2)
+        out.append(v - (1 << w) if k == 'i' and slot[0] == '1' else v)
+    return out
+
+def run_arrfile(c):
+    import bitstring
+    from bitstring import Bits, BitArray, Array
+    d = c['dtype']; w = AF_DTYPES[d][2]
+    def look(a):
+        bio = io.BytesIO(); a.tofile(bio)
+        return {'bin': a.data.bin, 'len': len(a), 'tobytes': list(a.tobytes()), 'tofile': list(bio.getvalue()), 'trail': a.trailing_bits.bin,
+                'items': a.tolist() if AF_DTYPES[d][0] else None}
+    def make(f):
+        """the route of the case on handle f: [outcome, what the Array looks like afterwards]"""
+        r = c['route']; box = []
+        def go():
+            if r == 'init': box.append(Array(d, f)); return
+            if r == 'init_trail': box.append(Array(d, f, trailing_bits=Bits(bin=c['trail']))); return
+            a = Array(d, BitArray(bin=c['prefix'] + c['trail'])); box.append(a)
+            if r == 'fromfile_n': a.fromfile(f, c['n'])
+            else: a.fromfile(f)
+        res = attempt(go)
+        return [res[0] if res[0] == 'ok' else res[1], look(box[0]) if box else None]
+    def history(f):
+        for p in c['pre']:
+            try:
+                if p[0] == 'read': f.read(p[1])
+                elif p[0] == 'read1': f.read1(p[1])
+                elif p[0] == 'seek': f.seek(p[1])
+                elif p[0] == 'end': f.seek(0, 2)
+                elif p[0] == 'readall': f.read()
+                elif p[0] == 'readline': f.readline()
+                elif p[0] == 'peek': f.peek(4)
+                elif p[0] == 'readinto': f.readinto(bytearray(p[1]))
+                elif p[0] == 'tell': f.tell()
+                elif p[0] == 'seek0': f.seek(0)
+                elif p[0] == 'Bits': cls_of(p[1])(f)
+                elif p[0] == 'BitsWin': cls_of(p[1])(f, offset=p[2], length=p[3])
+                elif p[0] == 'Array': Array(p[1], f)
+                elif p[0] == 'fromfile':
+                    x = Array(p[1])
+                    x.fromfile(f) if p[2] is None else x.fromfile(f, p[2])
+                elif p[0] == 'append':
+                    f.seek(0, 2); f.write(bytes(p[1])); f.flush()
+            except Exception: pass          # (a step of the history that this kind of handle refuses is no step)
+    def f_():
+        bitstring.options.lsb0 = bool(c.get('lsb0'))
+        out = {}
+        if c['holder'] == 'bytesio':
+            f = io.BytesIO(bytes(c['src'])); history(f)
+            out['main'] = make(f); out['second'] = make(f)
+            out['bits'] = list(Bits(f).tobytes())
+            f2 = io.BytesIO(f.getvalue()); out['fresh'] = make(f2)
+            return out
+        fd, path = tempfile.mkstemp(prefix='verif_c17_')
+        closers = []; removed = False
+        try:
+            with os.fdopen(fd, 'wb') as fh: fh.write(bytes(c['src']))
+            f, closers = af_open(path, c['mode']); history(f)
+            out['main'] = make(f); out['second'] = make(f)
+            out['bits'] = list(attempt(lambda: list(Bits(f).tobytes())))
+            with open(path, 'rb') as f2: out['fresh'] = make(f2)
+            # the Array keeps its items when the handle is closed and the file is gone
+            keep = Array(d, f) if c['route'].startswith('init') else None
+            for x in closers: x.close()
+            os.unlink(path); removed = True
+            if keep is not None: out['kept'] = [keep.data.bin, list(keep.tobytes())]
+            return out
+        finally:
+            bitstring.options.lsb0 = False
+            for x in closers:
+                try: x.close()
+                except Exception: pass
+            if not removed:
+                try: os.unlink(path)
+                except OSError: pass
+    return attempt(f_, 20)
+
+def oracle_arrfile(c, obs):
+    d = c['dtype']; w = AF_DTYPES[d][2]; content = af_content(c)
+    handle = ('a BytesIO' if c['holder'] == 'bytesio' else f"a {c['mode']!r} handle") + f" of {len(content)} bytes {bytes(content[:8]).hex()}.." + (f" after {c['pre']}" if c['pre'] else '')
+    call = {'init': f"Array({d!r}, f)", 'init_trail': f"Array({d!r}, f, trailing_bits={c['trail']!r})", 'fromfile': f"Array({d!r}, {c['prefix']!r}).fromfile(f)",
+            'fromfile_n': f"Array({d!r}, {c['prefix']!r}).fromfile(f, {c['n']})", 'fromfile_trailing': f"Array({d!r}, {c['prefix'] + c['trail']!r}).fromfile(f)"}[c['route']]
+    what = f"{call} with f = {handle}{' under lsb0' if c.get('lsb0') else ''}"
+    if obs[0] != 'ok': return f"{what}: raised {obs[1]}"
+    o = obs[1]
+    outcome, data = af_expected(c)
+    whole = ''.join(format(x, '08b') for x in content)
+    for name in ('main', 'second', 'fresh'):
+        tag = {'main': '', 'second': ' (the same handle, a second time)', 'fresh': ' (a handle opened afresh)'}[name]
+        got, a = o[name]
+        if got != outcome: return f"{what}{tag}: outcome {got}, expected {outcome} (the file holds {len(whole) // w} whole items of {w} bits)"
+        if a is None: return f"{what}{tag}: no Array"
+        if a['bin'] != data:
+            return (f"{what}{tag}: the Array holds {len(a['bin'])} bits {a['bin'][:72]!r}.., i.e. {a['len']} items; the file's items give {len(data)} bits {data[:72]!r}.. "
+                    f"({len(data) // w} items: the whole file counts, not what lies beyond the handle's position)")
+        if a['len'] != len(data) // w or a['trail'] != data[len(data) - len(data) % w:]: return f"{what}{tag}: len {a['len']} / trailing bits {a['trail']!r} for {len(data)} bits of data at {w} bits per item"
+        exp = pad_bytes(data)
+        if a['tobytes'] != exp or a['tofile'] != exp: return f"{what}{tag}: tobytes {bytes(a['tobytes'][:12]).hex()} / tofile {bytes(a['tofile'][:12]).hex()} of the Array; its data zero-padded is {bytes(exp[:12]).hex()}"
+        items = af_items(c, data) if not c.get('lsb0') else None          # (under lsb0 the items are enumerated from the other end of the data: the data decides)
+        if items is not None and a['items'] != items: return f"{what}{tag}: items {str(a['items'])[:100]}, the file's items are {str(items)[:100]}"
+    bits = o['bits'] if c['holder'] == 'bytesio' else (o['bits'][1] if o['bits'][0] == 'ok' else o['bits'])
+    if bits != content: return f"{what}: Bits(f) of the same handle afterwards gives {str(bits)[:80]}, the file holds {str(content)[:80]}"
+    if 'kept' in o:
+        kd = whole[:len(whole) // w * w]
+        if o['kept'] != [kd, pad_bytes(kd)]: return f"Array({d!r}, f) with f = {handle}, read after f was closed and the file removed: {len(o['kept'][0])} bits, tobytes {bytes(o['kept'][1][:12]).hex()}; the file held {bytes(content[:12]).hex()}"
+    return None
 
 def make_source(c, cleanup):
     """the source object described by the case (runner side)"""
@@ -324,7 +542,7 @@ def derived_bits(bits, name, c):
     if name == 'ror': return (bits[-(3 % n):] + bits[:-(3 % n)] if 3 % n else bits) if n else None
     raise AssertionError(name)
 
-def kind(c): return c['op'] + ':' + (c.get('via') or c.get('wrap', {}).get('kind', ''))
+def kind(c): return c['op'] + ':' + (c.get('via') or c.get('wrap', {}).get('kind', '') or (c.get('holder', '') + '/' + c['route'] if c['op'] == 'arrfile' else ''))
 
 class HashSink:
     def __init__(self): self.h = hashlib.sha256(); self.n = 0
@@ -414,6 +632,7 @@ def run_impl(c):
                     try: fn()
                     except Exception: pass
         return attempt(f)
+    if op == 'arrfile': return run_arrfile(c)
     if op == 'array':
         def f():
             a = Array(f"uint{c['w']}", c['items'], trailing_bits=Bits(bin=c['trail']) if c['trail'] else None)
@@ -525,6 +744,7 @@ def oracle(c, obs):
                 return f"Array({dt!r}, <{desc} over {len(c['src'])} bytes {bytes(c['src'][:8]).hex()}>): data {len(data)} bits, tobytes {bytes(tb[:12]).hex()}, tofile {bytes(tf[:12]).hex()}; the source holds {len(sb)} bits {bytes(pad_bytes(sb)[:12]).hex()}"
         if o['again'] != pad_bytes(exp[1]): return f"{what}: tobytes() after deriving {c['derived']} from it gave {bytes(o['again'][:12]).hex()}.."
         return None
+    if op == 'arrfile': return oracle_arrfile(c, obs)
     if op == 'array':
         if obs[0] != 'ok': return f"Array {c} raised {obs}"
         data = ''.join(format(x, f"0{c['w']}b") for x in c['items']) + c['trail']
@@ -548,6 +768,7 @@ def oracle(c, obs):
 def nontrivial(c, obs):
     if c['op'] == 'window': return obs[0] == 'ok' and 0 < len(obs[1]) < 8 * len(c['src'])
     if c['op'] == 'srcser': return obs[0] == 'ok' and 0 < obs[1]['main']['len'] < 8 * len(c['src'])
+    if c['op'] == 'arrfile': return bool(c['pre'])
     return len(c.get('bits', 'x')) % 8 != 0 or c['op'] in ('array',)
 
 def classify(c, obs): return None
